@@ -54,6 +54,8 @@ def twin_case_folding(ctx, run, rule):
 def check(ctx, run):
     run.rules_run = ['R11.1', 'R11.2', 'R11.3', 'R11.4']
     dispatch.r11_1(ctx, run)
+    dispatch.r11_7(ctx, run)
+    run.floor('R11.7', 'calls of the text parser on a sniffed argument', run.counts.get('text_parse_sites', 0), 49)
     c10.r10_3(ctx, run, rule='R11.2')
     dispatch.r11_3(ctx, run)
     # ---- R11.4 the tree twin and the byte walker of one operation agree on the steps that decide its result
